@@ -22,6 +22,14 @@ CLAIMED = {
    text="TLC enumerates every reference multigraph within the bound (n<=2 over 7 edge kinds, n=3 over a reduced alphabet) and builds the schema document in TLA+; each is ingested by the real typify and the containment graph of the generated types (internal snapshot and, independently, a Type::details() walk) is validated by TLC against Containment.tla: acyclic by value, and no Box at all when the schema graph is acyclic",
    note="bounded: number of definitions and edges; trusted: TLC, hook verif_snapshot (cross-checked against the public walk), vdrive",
    ref="DESIGN.md 6 C07"),
+ "C02": dict(
+   text="TLC generates, for every document of a stratified universe of the faithful fragment (Families.tla), the candidate instances (Instances.tla) and classifies them with the TLA+ draft-07 semantics (Schema.tla, cross-checked on every instance against Python jsonschema); the documents are run through the real typify, the generated code is compiled and executed on every instance, and the recorded deser events are validated by TLC against ContractSerde!C02 (valid => accepted)",
+   note="bounded: the quick universe (134 documents, ~3000 instances); trusted: TLC, Schema.tla (self-checked), rustc, serde, vdrive and the generated-crate support code",
+   ref="DESIGN.md 6 C02"),
+ "C03": dict(
+   text="same pipeline and compiled types as C02; for every valid instance with declared members only, TLC validates the recorded round trip against ContractSerde!C03: output valid under the schema, declared data contained (modulo pruned null/[]/{}), additions only where a schema or intrinsic default allows, second round trip identical",
+   note="bounded as C02; trusted: as C02",
+   ref="DESIGN.md 6 C03"),
 }
 NA_REASON = {}
 DEFAULT_NA = "check under construction in this session (DESIGN.md 11); not yet claimed"
